@@ -164,6 +164,37 @@ Theorem c12_counters_during_run :
 Proof. exact run_loop_sinv. Qed.
 Print Assumptions c12_counters_during_run.
 
+(* failures are recorded (the statement seeded change C12-G breaks): after a poll that raised no exception, a trial
+   has the status-map entry Failed - and therefore counts in num_trials_failed, which [too_many_failures] compares with
+   max_failures - IFF this poll listed it as Failed (whatever the scheduler decided on its results in the same poll),
+   or the poll did not list it and its entry was Failed before. [sd] is the status dictionary of the poll as recorded
+   by the ECbFetch event; NoDup of the running set is part of c01_budget. Together with c12_counters_during_run
+   (entries only change by polls and by start/resume, which write InProgress) this is "num_trials_failed = number of
+   trials whose last observed status is Failed and that were not resumed since". *)
+Theorem c12_failures_recorded :
+  forall prm o st st' done, process_new_results prm o st = (st', done, None) -> NoDup (s_running st) ->
+  exists sd rs, In (ECbFetch sd rs) (s_trace st') /\ map fst sd = poll_order (s_running st) (o_ord o (s_np st)) /\
+    forall t, aget t (s_smap st') = Some Failed <->
+              (In (t, Failed) sd \/ (~ In t (map fst sd) /\ aget t (s_smap st) = Some Failed)).
+Proof. exact failures_recorded. Qed.
+Print Assumptions c12_failures_recorded.
+
+(* non-vacuity: the poll shows trial 0 Failed together with a report on which the scheduler answers STOP; the
+   status map records Failed (not Stopped), max_failures = 0 is exceeded and run() raises naming trial 0. *)
+Definition ex12f_oracles : oracles :=
+  {| o_world := fun _ => ([{| r_metric := 1; r_cost := 0; r_ts := 1 |}], WFailed)%Q;
+     o_ord := fun _ => []; o_dec := fun _ => STOP; o_sug := fun n => SStart (Z.of_nat n) None;
+     o_clk := fun _ => 0%Q; o_ext := fun _ => false |}.
+Definition ex12f_params : params :=
+  {| n_workers := 1; async := true; wait_completion := false; max_failures := 0; sjwd := true; c_wallclock := None;
+     c_evals := None; c_started := None; c_completed := None; c_finished := None; c_cost := None; c_min_metric := None;
+     c_max_metric := None |}.
+Example c12_failures_recorded_example :
+  let '(st, out) := run ex12f_params ex12f_oracles 5 in
+  out = Raised (EFailureLimit 0) /\ s_smap st = [(0%nat, Failed); (1%nat, Stopped)] /\
+  existsb (fun e => match e with ECbResult 0 Failed 0 STOP => true | _ => false end) (s_trace st) = true.
+Proof. vm_compute. repeat split. Qed.
+
 (* more failed trials than max_failures when run() ends: it ends with ValueError("Trial - t failed") for a
    trial t whose end was observed as Failed *)
 Theorem c12_failure_limit :
